@@ -343,6 +343,9 @@ class SimNet:
         self.sent_bytes = collections.Counter()
         self.wire = collections.defaultdict(bytearray)  # full byte history per directed channel
         self.on_write = None
+        self.crash = None          # (victim pid, number of bytes it manages to write in total, deliver EOF to peers?)
+        self.crash_sent = 0
+        self.outlog = [[] for _ in range(m)]   # programs may append completed outputs here (crash checks)
         SECRETS.reseed(seed, m)
         _install_proxy()
         RTS.clear()
@@ -388,6 +391,20 @@ class SimNet:
             self.errors.append((i, 'callback', exc))
 
     def _write(self, a, b, data):
+        if self.crash is not None and a == self.crash[0]:
+            if a in self.stopped:
+                return
+            left = self.crash[1] - self.crash_sent
+            if len(data) >= left:      # the victim stops in the middle of (or right after) this write
+                data = data[:left]
+                self.crash_sent += len(data)
+                self._write_raw(a, b, data)
+                self.stop_party(a, eof=self.crash[2])
+                return
+            self.crash_sent += len(data)
+        self._write_raw(a, b, data)
+
+    def _write_raw(self, a, b, data):
         self.sent_bytes[(a, b)] += len(data)
         self.wire[(a, b)].extend(data)
         if self.on_write is not None:
@@ -493,13 +510,17 @@ class SimNet:
                 info[f'{a}<-{b}'] = {'waiting': waiting[:6], 'unclaimed': stored[:6]}
         return info
 
-    def stop_party(self, i):
-        """Crash party i: it never runs again and never reads; peers see EOF eventually."""
+    def stop_party(self, i, eof=True):
+        """Crash party i: it never runs again and never reads; with eof, peers see the connection end
+        after the bytes already written; without, the connection just goes silent."""
         self.stopped.add(i)
+        self.queues[i].clear()
         for j in range(self.m):
             if j != i and (i, j) in self.chan:
-                self.chan[(i, j)]['eof'] = True
                 self.transports[(i, j)].closed = True
+                if eof:
+                    self.chan[(i, j)]['eof'] = True
+                self.chan[(j, i)]['buf'].clear()
 
     def _cleanup(self):
         for tk in getattr(self, 'tasks', []):
